@@ -15,7 +15,7 @@ class C02(flow.Spec):
     pkg = 'mm/pmm'
     harness = [os.path.join(H, 'zz_verif_c02_test.go'), os.path.join(H, 'zz_verif_pmm_util_test.go')]
     test = 'TestVerifC02$'
-    rule = ('memory maps of 1-6 regions (sizes from {<1 page,1,2,63,64,65,127,128,129,200,random<=600 frames}, aligned or with '
+    rule = ('maps start in low memory or around/above 4 GiB, 1 TiB, 16 TiB (frame numbers >= 2^32); memory maps of 1-6 regions (sizes from {<1 page,1,2,63,64,65,127,128,129,200,random<=600 frames}, aligned or with '
             'sub-page offsets at either end, adjacent or separated, types 1 interleaved with 0,2..6,2^32-1,random), kernel image at '
             'start/middle/end/whole/one page/sub-page/trailing partial page of a random available region; the boot allocator is '
             'called to exhaustion (+0..3 calls) or a random shorter number of times, then reset and replayed; ~8% of the cases lie '
